@@ -263,7 +263,7 @@ def build(seed, index):
     # a few programs start at a date so large that small positive delays are lost in float
     # rounding (now + delay == now): the kernel then queues a *new* step of the same date
     gen = Gen(rng, weights=FANOUT, max_roots=6, max_steps=5,
-              start_times=(0, 0, 0, 0, 0, 2.0 ** 53, 1e17))
+              start_times=(0, 0, 0, 0, 0, 2.0 ** 53, 1e17, -3, -0.5, -1))
     return gen.program()
 
 
